@@ -168,7 +168,8 @@ class IsUniqueCheck(AbstractCheck):
         unique_field_names = set()
         while not _tools.is_eof_token(next_token):
             token_type = next_token[0]
-            token_value = next_token[1]
+            # NOTE: With Python 3.12 a name can include adjacent non ASCII white space.
+            token_value = next_token[1].strip()
             if after_comma:
                 if token_type != tokenize.NAME:
                     raise errors.InterfaceError(
@@ -233,7 +234,8 @@ class DistinctCountCheck(AbstractCheck):
             raise errors.InterfaceError(
                 "rule must start with a field name but found: %r" % first_token[1], self.location_of_rule
             )
-        self._field_name_to_count = first_token[1]
+        # NOTE: With Python 3.12 a name can include adjacent non ASCII white space.
+        self._field_name_to_count = first_token[1].strip()
         fields.field_name_index(self._field_name_to_count, available_field_names, location)
         line_where_field_name_ends, column_where_field_name_ends = first_token[3]
         assert column_where_field_name_ends > 0
